@@ -129,7 +129,7 @@ NeedsObs(d, s) == d.needsObs = 0 \/ s.r[d.needsObs] # "None"
 Defined(d, s, a) == a.op = "Set" /\ NeedsObs(d, s)                \* an in-domain assignment the statement speaks about
 Frame(K, d, s, a) == (DOMAIN K.props) \ ({a.p} \cup Rng(d.coupled) \cup {w \in Rng(d.weak) : s.x[w] # "yes"})
 PostNames == <<"InDomainAccepted", "ReadBackWithinQuantum", "NoneRestoresInheritance", "OutOfDomainRefused", "RefusalClass",
-               "OthersUnchanged", "ReopenSame">>
+               "OthersUnchanged", "ReopenSame", "TwinUnchanged">>
 PostHolds(n, K, s, a, out, m, t, taint) ==
   LET d == IF a.p = 0 THEN K.props[1] ELSE K.props[a.p] IN
   CASE n = "InDomainAccepted" ->        \* every value in the documented domain can be assigned
@@ -145,6 +145,9 @@ PostHolds(n, K, s, a, out, m, t, taint) ==
     [] n = "OthersUnchanged" ->         \* readings of the other, independent properties are unchanged
          (a.op \in {"Set", "SetNone"} /\ out = "ok" /\ (a.op = "Set" => NeedsObs(d, s))) =>
             \A q \in Frame(K, d, s, a) \ taint : t.r[q] = s.r[q]
+    [] n = "TwinUnchanged" ->           \* the readings of ANOTHER object of the same kind (same path on an identical second slide; given the same value
+                                        \* after the first accepted assignment) do not change when this object is assigned to, and vice versa:
+         m.tw # "changed"               \* "the object's other, independent properties" a fortiori covers other objects
     [] n = "ReopenSame" ->              \* the same value is read after saving and re-opening
          a.op = "SaveReopen" => ((taint = {} => out = "ok") /\ (out = "ok" => \A q \in (DOMAIN K.props) \ taint : t.r[q] = s.r[q]))
 PostFailing(K, s, a, out, m, t, taint) ==
